@@ -103,16 +103,19 @@ func (m *Model) Clone() *Model {
 
 // Sess is the per-connection state.
 type Sess struct {
-	DB      int
-	Proto   int
-	Name    string
-	InMulti bool
-	Dirty   bool // a command was rejected while queueing
-	Queue   [][]string
-	Watch   map[wkey]uint64
+	DB        int
+	Proto     int
+	Name      string
+	InMulti   bool
+	Dirty     bool // a command was rejected while queueing
+	Queue     [][]string
+	Watch     map[wkey]uint64
+	WatchMiss map[wkey]bool // the key did not exist when it was first watched
 }
 
-func NewSess() *Sess { return &Sess{Proto: 2, Watch: map[wkey]uint64{}} }
+func NewSess() *Sess {
+	return &Sess{Proto: 2, Watch: map[wkey]uint64{}, WatchMiss: map[wkey]bool{}}
+}
 
 func (s *Sess) Clone() *Sess {
 	c := *s
@@ -121,12 +124,17 @@ func (s *Sess) Clone() *Sess {
 	for k, v := range s.Watch {
 		c.Watch[k] = v
 	}
+	c.WatchMiss = make(map[wkey]bool, len(s.WatchMiss))
+	for k, v := range s.WatchMiss {
+		c.WatchMiss[k] = v
+	}
 	return &c
 }
 
 func (s *Sess) resetTx() {
 	s.InMulti, s.Dirty, s.Queue = false, false, nil
 	s.Watch = map[wkey]uint64{}
+	s.WatchMiss = map[wkey]bool{}
 }
 
 // ---------------------------------------------------------------- expectations
@@ -561,3 +569,7 @@ func ModelKnows(name string) bool {
 	_, ok := cmdTable[strings.ToLower(name)]
 	return ok
 }
+
+// sessQueue: queue length probe used by coverage counters (s is the live
+// session; before is the model clone taken before the command).
+func (m *Model) sessQueue(s *Sess) [][]string { return s.Queue }
